@@ -124,6 +124,9 @@ fn explore(ctx: &Ctx) -> Outcome {
     mb.extend(binfam::tricky_family());
     mb.extend(binfam::collation_family());
     mb.extend(binfam::many_labels_family());
+    mb.extend(binfam::pair_family());
+    mb.extend(binfam::domain_family());
+    mb.extend(binfam::palindromic_size_family());
     let (dl, dd) = ctx.tier.pick((300, 300), (1300, 4400));
     mb.extend(binfam::dense_family(dl, dd));
     let t = mb
